@@ -54,6 +54,7 @@ type stateRec struct {
 	Target      bool     `json:"target"`
 	Dep         string   `json:"dep"`
 	DepDep      string   `json:"depdep"`
+	DepWKT      bool     `json:"depwkt"`
 	ModuleFiles []string `json:"modulefiles"`
 	B5          term     `json:"b5"`
 	B4          term     `json:"b4"`
@@ -66,6 +67,16 @@ type input struct {
 	Corrupt bool       `json:"corrupt"`
 }
 
+func (st *stateRec) depImport() string {
+	if st.Dep == "-" {
+		return ""
+	}
+	if st.DepWKT {
+		return "google/protobuf/timestamp.proto"
+	}
+	return "dep/d.proto"
+}
+
 var realPath = map[string]string{"d/u-umlaut.proto": "d/ü.proto"}
 
 func rp(p string) string {
@@ -76,7 +87,7 @@ func rp(p string) string {
 }
 
 // content renders the bytes of (path, content id) in a state.
-func content(path, id string, hasDep bool) []byte {
+func content(path, id string, depImport string) []byte {
 	if id == "ce" {
 		return []byte{}
 	}
@@ -86,8 +97,8 @@ func content(path, id string, hasDep bool) []byte {
 	pkg := "m" + fmt.Sprint(len(path)) + strings.NewReplacer("/", "_", ".", "_", "-", "_", " ", "_").Replace(path)
 	var sb strings.Builder
 	sb.WriteString("syntax = \"proto3\";\npackage " + pkg + ";\n")
-	if path == "a.proto" && hasDep {
-		sb.WriteString("import \"dep/d.proto\";\n")
+	if path == "a.proto" && depImport != "" {
+		sb.WriteString("import \"" + depImport + "\";\n")
 	}
 	if id == "c2" {
 		sb.WriteString("// second version\n")
@@ -98,6 +109,15 @@ func content(path, id string, hasDep bool) []byte {
 
 func depContent(m, id string, imports bool) []byte {
 	var sb strings.Builder
+	if m == "W" {
+		// a vendored copy of a well-known type (not byte-identical to the built-in one)
+		sb.WriteString("syntax = \"proto3\";\npackage google.protobuf;\n")
+		if id == "c2" {
+			sb.WriteString("// second version\n")
+		}
+		sb.WriteString("message Timestamp { int64 seconds = 1; int32 nanos = 2; }\n")
+		return []byte(sb.String())
+	}
 	sb.WriteString("syntax = \"proto3\";\npackage dep" + strings.ToLower(m) + ";\n")
 	if imports {
 		sb.WriteString("import \"e/e.proto\";\n")
@@ -134,7 +154,7 @@ func eval(t *term, st *stateRec) []byte {
 		var out []byte
 		// manifest line: <<CasStr(H(content)), "  ", path, "\n">> : the content term gets the path of its line
 		if len(t.Args) == 4 && t.Args[2].Op == "path" && t.Args[0].Op == "str" && t.Args[0].H.Arg != nil && t.Args[0].H.Arg.Op == "content" {
-			c := content(t.Args[2].P, t.Args[0].H.Arg.ID, st.Dep != "-")
+			c := content(t.Args[2].P, t.Args[0].H.Arg.ID, st.depImport())
 			out = append(out, []byte("shake256:"+hex.EncodeToString(shake(c)))...)
 			for i := 1; i < 4; i++ {
 				out = append(out, eval(&t.Args[i], st)...)
@@ -261,11 +281,11 @@ func run(in []byte) (*reg.Result, error) {
 				files := map[string][]byte{}
 				var desc []string
 				for _, f := range st.Files {
-					files[rp(f.P)] = content(f.P, f.C, hasDep)
+					files[rp(f.P)] = content(f.P, f.C, st.depImport())
 					desc = append(desc, f.P+"="+f.C)
 				}
 				sort.Strings(desc)
-				caseInfo := map[string]any{"files": desc, "name": st.Name, "target": st.Target, "dep": st.Dep, "depdep": st.DepDep}
+				caseInfo := map[string]any{"files": desc, "name": st.Name, "target": st.Target, "dep": st.Dep, "depdep": st.DepDep, "dep_is_vendored_wkt": st.DepWKT}
 				wantB5 := "b5:" + hex.EncodeToString(eval(&st.B5, &st))
 				wantManifest := string(eval(&st.Manifest, &st))
 				for _, backend := range backends() {
@@ -293,7 +313,7 @@ func run(in []byte) (*reg.Result, error) {
 					}
 					datas := []bufmoduletesting.ModuleData{md}
 					if hasDep {
-						datas = append(datas, bufmoduletesting.ModuleData{Name: "buf.test/verif/dep", PathToData: map[string][]byte{"dep/d.proto": depContent("D", st.Dep, st.DepDep != "-")}})
+						datas = append(datas, bufmoduletesting.ModuleData{Name: "buf.test/verif/dep", PathToData: map[string][]byte{st.depImport(): depContent(map[bool]string{true: "W", false: "D"}[st.DepWKT], st.Dep, st.DepDep != "-")}})
 						if st.DepDep != "-" {
 							datas = append(datas, bufmoduletesting.ModuleData{Name: "buf.test/verif/depdep", PathToData: map[string][]byte{"e/e.proto": depContent("E", st.DepDep, false)}})
 						}
